@@ -1,0 +1,50 @@
+//go:build verif
+
+// Package verifhook holds the observation points used by the external
+// verification harness. It is compiled to no-ops unless the build tag
+// "verif" is set, and even then every hook is nil until a harness installs it.
+package verifhook
+
+// AtFn is called at named observation points (scheduler gates).
+var AtFn func(point string)
+
+// MutFn is called immediately before a persistent mutation is performed.
+var MutFn func(kind, target string)
+
+// WriteFaultFn may replace a content file write: handled=false lets the real write happen.
+var WriteFaultFn func(path string, p []byte) (n int, err error, handled bool)
+
+// DiskFreeFn may override the free space reported for a root.
+var DiskFreeFn func(root string, real uint64) uint64
+
+// At marks an observation point.
+func At(point string) {
+	if f := AtFn; f != nil {
+		f(point)
+	}
+}
+
+// Mut marks a persistent mutation that is about to happen.
+func Mut(kind, target string) {
+	if f := MutFn; f != nil {
+		f(kind, target)
+	}
+}
+
+// WriteFault lets a harness fail or shorten a content write.
+func WriteFault(path string, p []byte) (int, error, bool) {
+	if f := WriteFaultFn; f != nil {
+		return f(path, p)
+	}
+
+	return 0, nil, false
+}
+
+// DiskFree lets a harness override the free space of a root.
+func DiskFree(root string, real uint64) uint64 {
+	if f := DiskFreeFn; f != nil {
+		return f(root, real)
+	}
+
+	return real
+}
